@@ -798,10 +798,14 @@ class Planner:
             kind, m = self.measure(M, like=last if last is not None and r.random() < 0.35 else None)
             if m is None:
                 continue
+            same_term = last is not None and self.last_measure == last and getattr(self, "_last_integrand", None) is not None and r.random() < 0.4
             last = self.last_measure
-            s = self.integrand(M, rank, depth, kind)
+            # the same term under two sets of compiler parameters (two quadrature degrees,
+            # lumped and consistent mass): equal integrands, other metadata
+            s = self._last_integrand if same_term else self.integrand(M, rank, depth, kind)
             if s is None:
                 continue
+            self._last_integrand = s
             self.exprs.append(s)
             itg = self.call("operator.mul", self.ref(s), self.ref(m), kind="form")
             if itg is None:
